@@ -50,7 +50,7 @@ def rand_aconf(rng, n):
                 if name == "Fail" and ln["args"] and rng.random() < 0.3: ln["args"][0] = {"txt": "bad", "kind": "str"}
                 out.append(ln)
             elif r < 0.85 and depth < 3:
-                name = rng.choice(["Domain", "Host"]) if rng.random() < 0.9 else "Listen"
+                name = rng.choice(["Domain", "Host"]) if rng.random() < 0.8 else rng.choice(["Listen", "Bogus", "Bogus"])
                 o = line("open", name, 1 if rng.random() < 0.9 else 2); out.append(o); body(depth + 1, out)
                 if rng.random() < 0.92:
                     c = line("close", name, 0); c["alt"] = o["alt"] if rng.random() < 0.9 else (not o["alt"] and name != "TTL")
@@ -68,8 +68,9 @@ def rand_aconf(rng, n):
 
 
 def well_defined(doc):
-    """Unregistered sections under ignore-unknown are undocumented: such documents are not judged."""
-    if not (doc["ignore"] or doc.get("defh")):
+    """Unregistered sections together with a default handler are undocumented: such documents are not judged.  (Under ignore-unknown
+    alone they are entered like registered ones, with a left-over section id: modelled in AconfRef.tla as the code behaves.)"""
+    if not doc.get("defh"):
         return True
     return not any(l["t"] in ("open", "close") and (l["name"] == "Bogus" or (l["alt"] and not doc["ci"])) for l in doc["lines"])
 
